@@ -244,7 +244,15 @@ func c18Structured(c *Ctx) {
 			g.Initializer = inits
 		}
 		tp := inits[r.Intn(len(inits))]
-		switch r.Intn(10) {
+		switch r.Intn(11) {
+		case 10:
+			for i := range tp.Dims {
+				tp.Dims[i] = -tp.Dims[i]
+			}
+			if len(tp.Dims)%2 == 1 || r.Chance(0.3) {
+				tp.Dims = append(tp.Dims, -1)
+			}
+			what = "initializer dims all negated (product unchanged)"
 		case 0:
 			if len(tp.Dims) > 0 {
 				tp.Dims[r.Intn(len(tp.Dims))] = int64(-r.Range(1, 5))
